@@ -287,6 +287,16 @@ func (bn *baseNode) setOwner(uid, gid int) {
 	if gid != -1 {
 		bn.gid = gid
 	}
+
+	if bn.mode.IsRegular() {
+		// As chown(2), changing the owner of a regular file clears its set-user-ID bit,
+		// and its set-group-ID bit if the file is group executable.
+		bn.mode &^= fs.ModeSetuid
+
+		if bn.mode&0o010 != 0 {
+			bn.mode &^= fs.ModeSetgid
+		}
+	}
 }
 
 // Unlock unlocks the node.
